@@ -3,6 +3,10 @@
 -/
 import GraphiqModel.Proofs.StabTableau
 import GraphiqModel.Proofs.Solver
+import GraphiqModel.Proofs.HeightEntropy
+import GraphiqModel.Proofs.HeightGraph
+import GraphiqModel.Proofs.EchelonCheck
+import GraphiqModel.Proofs.HeightTotal
 namespace Graphiq.C03
 open Graphiq Graphiq.PRow Graphiq.STab Graphiq.Tab
 
@@ -55,21 +59,212 @@ theorem solver_emits_each_photon_once (target : STab) (s : Solver.St) (h : Solve
 theorem solver_allocates_max_height (target : STab) (s : Solver.St) (h : Solver.solve target = .ok s) :
     Solver.determineNEmitters target = .ok s.ne := Solver.solve_emitter_count target s h
 
-/-- full statement kept visible (not a theorem of this development — echelon-gauge lemma, Tier B):
-    the height at `k` equals `|B| − dim {P ∈ group : supp P ⊆ B}` for `B = {k+1..n−1}`, hence is gauge independent -/
+/-! ### the echelon form and the entropy characterisation -/
+
+/-- **`rref` keeps the stabilizer group, signs included** (every n, every real commuting generating set): the row operations of
+    all eight cases of `one_step_rref` are invertible, so the echelon form generates exactly the signed group of the input -/
+theorem rref_keeps_group (t t' : STab) (brs : List String) (hg : t.Good) (h : t.rref = .ok (t', brs)) :
+    SpanEq t t' ∧ t'.Good := rref_spanEq t t' brs hg h
+
+/-- **`rref` returns an echelon form** (every n, every tableau): whenever it returns, every generator `i` has a leading
+    (leftmost non-identity) site `piv i`, leading sites are non-decreasing down the rows, at most two generators share a leading
+    site and then they are adjacent and carry two different Paulis there — unless the last row is the identity (the case
+    `pivot[0] = n-1` admitted by the final assertion of `rref`; `height_func_list` then raises ValueError). -/
+theorem rref_echelon (t t' : STab) (brs : List String) (h : t.rref = .ok (t', brs)) :
+    (∃ piv, Echelon t' piv) ∨ (0 < t'.n ∧ ∀ j, j < t'.n → t'.ptype (t'.n - 1) j = 0) :=
+  rref_echelon_or_trivial t t' brs h
+
+/-- **every output of `rref` passes the executable echelon check** `STab.echelonB` (the predicate the driver evaluates on every
+    tableau returned by the real `rref`, harness/c03.py), unless its last row is the identity; and the check is exact:
+    `echelonB t = true ↔ ∃ piv, Echelon t piv` (`STab.echelonB_iff`) -/
+theorem rref_passes_echelon_check (t t' : STab) (brs : List String) (h : t.rref = .ok (t', brs)) :
+    t'.echelonB = true ∨ (0 < t'.n ∧ ∀ j, j < t'.n → t'.ptype (t'.n - 1) j = 0) := rref_echelonB t t' brs h
+
+/-- **echelon lemma** (every n): a product of generators of an echelon tableau that is trivial on the sites `0..k` uses only
+    generators whose leading site is right of `k`; in particular (`echelon_indep`) the generators are independent -/
+theorem echelon_right_support (t : STab) (piv : Nat → Nat) (he : Echelon t piv) (S : Nat → Bool) (k : Nat)
+    (hz : ∀ j, j ≤ k → j < t.n → t.comboX S j = false ∧ t.comboZ S j = false) :
+    ∀ i, i < t.n → S i = true → k < piv i := echelon_support t piv he S k hz
+
+/-- **the height function is the bipartite entanglement entropy** (every n, every generating set — no hypothesis on the
+    generators): whenever `height_func_list` returns, its entry `k` is `|B| − dim G_B` with `B = {k+1..n−1}`, `|B| = n−(k+1)`,
+    and `G_B` the subgroup of the stabilizer group (modulo phases, as a GF(2)-subspace of `(ZMod 2 × ZMod 2)^n`, dimension =
+    Mathlib `Module.finrank`) of the elements supported on `B` — the entropy of the cut `{0..k} | {k+1..n−1}` of a pure stabilizer
+    state (Fattal et al.; the identification of `|B| − dim G_B` with the von Neumann entropy is cited, not proved here). -/
+theorem height_is_entropy_value (t : STab) (l : List Int) (h : t.heightFuncList = .ok l) :
+    l = (List.range t.n).map fun (k : Nat) =>
+      Int.ofNat t.n - (Int.ofNat k + 1) - Int.ofNat (Module.finrank (ZMod 2) ↥(t.gspace ⊓ rightOf t.n k)) :=
+  heightFuncList_eq_finrank t l h
+
+/-- the same, entry by entry -/
+theorem height_entry_is_entropy (t : STab) (l : List Int) (h : t.heightFuncList = .ok l) (k : Nat) (hk : k < t.n) :
+    l[k]? = some (Int.ofNat t.n - (Int.ofNat k + 1) - Int.ofNat (Module.finrank (ZMod 2) ↥(t.gspace ⊓ rightOf t.n k))) := by
+  rw [heightFuncList_eq_finrank t l h, List.getElem?_map, List.getElem?_range hk]; rfl
+
+/-- **the same number as `rank(M_A) − |A|`** (every n, every generating set): entry `k` is the GF(2) rank of the generators restricted
+    to the sites `A = {0..k}` (the x- and z-columns of the qubits `0..k`) minus `|A| = k+1` — the textbook stabilizer entropy
+    formula, and exactly the independent oracle `height_spec` of the correspondence harness (rank–nullity on the restriction map,
+    using that the generators are independent whenever `height_func_list` returns) -/
+theorem height_is_rank_minus_size (t : STab) (l : List Int) (h : t.heightFuncList = .ok l) :
+    l = (List.range t.n).map fun (k : Nat) =>
+      Int.ofNat (Module.finrank (ZMod 2) ↥(t.gspace.map (cutLin t.n k))) - (Int.ofNat k + 1) :=
+  heightFuncList_eq_rank_cut t l h
+
+/-- **for a graph state the height function is the GF(2) rank of the adjacency block joining the two sides** (every n, every
+    adjacency relation, in the vertex order given): whenever `height_func_list` returns on the generators `X_i Z_{N(i)}`
+    (`StabilizerTableau([eye(n), adjacency])`), entry `k` is `Matrix.rank` over `ZMod 2` of the block of the adjacency matrix with
+    rows `{0..k}` and columns `{k+1..n−1}` -/
+theorem graph_height_is_cut_rank (n : Nat) (adj : Nat → Nat → Bool) (l : List Int)
+    (h : (graphSTab n adj).heightFuncList = .ok l) :
+    l = (List.range n).map fun (k : Nat) => Int.ofNat (cutBlock n k adj).rank :=
+  graph_heightFuncList_eq_rank n adj l h
+
+/-- **totality of `rref`** (every n): the assertions inside `_process_two_pauli` / `one_step_rref` never fire, and on linearly
+    independent generators (every valid stabilizer tableau) the final rank assertion holds too: `rref` returns, and its result is
+    an echelon form with no trivial row -/
+theorem rref_total (t : STab) (hli : LinearIndependent (ZMod 2) (fun i : Fin t.n => (t.row i).vec t.n)) :
+    ∃ t' brs piv, t.rref = .ok (t', brs) ∧ Echelon t' piv := rref_ok_of_indep t hli
+
+/-- **`height_func_list` returns exactly on the independent generating sets** (every n): so the theorems of this file that start
+    "whenever `height_func_list` returns" apply to every valid stabilizer tableau, and to nothing else -/
+theorem height_returns_iff_independent (t : STab) :
+    (∃ l, t.heightFuncList = .ok l) ↔ LinearIndependent (ZMod 2) (fun i : Fin t.n => (t.row i).vec t.n) :=
+  heightFuncList_ok_iff_indep t
+
+/-- **unconditional form of the entropy theorem**: on independent generators `height_func_list` returns the list of
+    `|B_k| − dim G_{B_k}`, `k = 0..n−1` -/
+theorem height_of_independent (t : STab) (hli : LinearIndependent (ZMod 2) (fun i : Fin t.n => (t.row i).vec t.n)) :
+    t.heightFuncList = .ok ((List.range t.n).map fun (k : Nat) =>
+      Int.ofNat t.n - (Int.ofNat k + 1) - Int.ofNat (Module.finrank (ZMod 2) ↥(t.gspace ⊓ rightOf t.n k))) :=
+  heightFuncList_of_indep t hli
+
+/-- **unconditional form for graph states** (every n, every adjacency relation): the generators of a graph state are independent,
+    so `height_func_list` returns, and it returns the list of the GF(2) ranks of the adjacency blocks of the cuts -/
+theorem graph_height_list (n : Nat) (adj : Nat → Nat → Bool) :
+    (graphSTab n adj).heightFuncList = .ok ((List.range n).map fun (k : Nat) => Int.ofNat (cutBlock n k adj).rank) :=
+  graph_heightFuncList n adj
+
+/-- **the solver's emitter count is the maximum of the target's own height list** (every target, every size): `determine_n_emitters`
+    evaluates `height_func_list` on `rref(target)`; by gauge independence that is the height list of the target as given, i.e.
+    (`height_is_entropy_value`) the list of the entanglement entropies of its cuts -/
+theorem solver_allocates_max_entropy (target : STab) (s : Solver.St) (h : Solver.solve target = .ok s) :
+    ∃ h0 hs, target.heightFuncList = .ok (h0 :: hs) ∧ s.ne = (hs.foldl max h0).toNat := by
+  have hd := Solver.solve_emitter_count target s h
+  unfold Solver.determineNEmitters at hd
+  split at hd
+  · cases hd
+  · next t1 brs hr =>
+    split at hd
+    · cases hd
+    · cases hd
+    · next h0 hs hl =>
+      injection hd with hd
+      exact ⟨h0, hs, heightFuncList_rref target t1 brs hr _ hl, hd.symm⟩
+
+/-- **gauge independence, strongest form**: two tableaux on the same number of qubits whose rows generate the same signed group
+    get the same height list (nothing is assumed about the generators) -/
+theorem height_gauge_independent (t t' : STab) (l l' : List Int) (hn : t.n = t'.n) (hs : ∀ p, t.Spn p ↔ t'.Spn p)
+    (h : t.heightFuncList = .ok l) (h' : t'.heightFuncList = .ok l') : l = l' :=
+  heightFuncList_gauge t t' l l' hn hs h h'
+
+/-- the full statement of the round-1 plan (gauge independence of the height function for real commuting generating sets);
+    proved below as `height_is_entropy` -/
 def height_is_entropy_statement : Prop :=
   ∀ (t t' : STab) (l l' : List Int), t.Good → t'.Good → (t.n = t'.n ∧ ∀ p, t.Spn p ↔ t'.Spn p) →
     t.heightFuncList = .ok l → t'.heightFuncList = .ok l' → l = l'
 
+/-- **the height function does not depend on the generating set** -/
+theorem height_is_entropy : height_is_entropy_statement :=
+  fun t t' l l' _ _ hs h h' => heightFuncList_gauge t t' l l' hs.1 hs.2 h h'
+
 /-! ### Non-vacuity: a linear cluster state of 3 qubits in a re-gauged generating set -/
 def lin3 : STab :=
   STab.ofRows 3 #[
-    PRow.ofArrays #[true,true,false] #[false,true,true] false false,   -- (XZI)(ZXZ) = YYZ
+    PRow.ofArrays #[true,true,false] #[false,true,true] false false,   -- XYZ
     PRow.ofArrays #[false,true,false] #[true,false,true] false false,  -- ZXZ
     PRow.ofArrays #[false,false,true] #[false,true,false] false false]  -- IZX
 
 example : (match lin3.heightFuncList with | .ok l => l == [1, 1, 0] | .error _ => false) = true := by decide +kernel
 example : (List.range 3).all (fun i => (lin3.row i).ip == false &&
     (List.range 3).all fun k => PRow.sp 3 (lin3.row i) (lin3.row k) == false) = true := by decide
+
+/-- the same state in another gauge: first generator replaced by its product with the second, `(XYZ)(ZXZ) = −YZI` -/
+def lin3c : STab :=
+  STab.ofRows 3 #[
+    PRow.ofArrays #[true,false,false] #[true,true,false] true false,    -- −YZI
+    PRow.ofArrays #[false,true,false] #[true,false,true] false false,   -- ZXZ
+    PRow.ofArrays #[false,false,true] #[false,true,false] false false]  -- IZX
+
+theorem lin3_good : lin3.Good := good_of_goodB lin3 (by decide)
+theorem lin3c_good : lin3c.Good := good_of_goodB lin3c (by decide)
+
+/-- `lin3` and `lin3c` generate the same signed group: `XYZ = (−YZI)(ZXZ)` and `−YZI = (XYZ)(ZXZ)`, signs included -/
+theorem lin3_same_group : lin3.n = lin3c.n ∧ ∀ p, lin3.Spn p ↔ lin3c.Spn p := by
+  have key : SpanEq lin3c lin3 := by
+    apply spanEq_of_gens lin3c lin3 rfl
+    · intro i hi
+      match i, hi with
+      | 0, _ =>
+        exact InSpan.eqv _ _ (InSpan.mul _ _ (spn_gen lin3c 0 (by decide)) (spn_gen lin3c 1 (by decide)))
+          (eqOn_of_beqOn _ _ _ (by decide))
+      | 1, _ => exact InSpan.eqv _ _ (spn_gen lin3c 1 (by decide)) (eqOn_of_beqOn _ _ _ (by decide))
+      | 2, _ => exact InSpan.eqv _ _ (spn_gen lin3c 2 (by decide)) (eqOn_of_beqOn _ _ _ (by decide))
+      | m + 3, h => exact absurd h (by show ¬ (m + 3 < 3); omega)
+    · intro i hi
+      match i, hi with
+      | 0, _ =>
+        exact InSpan.eqv _ _ (InSpan.mul _ _ (spn_gen lin3 0 (by decide)) (spn_gen lin3 1 (by decide)))
+          (eqOn_of_beqOn _ _ _ (by decide))
+      | 1, _ => exact InSpan.eqv _ _ (spn_gen lin3 1 (by decide)) (eqOn_of_beqOn _ _ _ (by decide))
+      | 2, _ => exact InSpan.eqv _ _ (spn_gen lin3 2 (by decide)) (eqOn_of_beqOn _ _ _ (by decide))
+      | m + 3, h => exact absurd h (by show ¬ (m + 3 < 3); omega)
+  exact ⟨rfl, fun p => ⟨key.sup p, key.sub p⟩⟩
+
+/-- the hypotheses of `height_is_entropy` / `height_gauge_independent` are satisfiable by two different generating sets, and
+    both height lists exist (so the conclusion `[1, 1, 0] = [1, 1, 0]` is about real outputs) -/
+example : lin3.Good ∧ lin3c.Good ∧ (lin3.n = lin3c.n ∧ ∀ p, lin3.Spn p ↔ lin3c.Spn p) ∧
+    lin3.heightFuncList = .ok [1, 1, 0] ∧ lin3c.heightFuncList = .ok [1, 1, 0] := by
+  have h1 : lin3.heightFuncList = .ok [1, 1, 0] := by decide +kernel
+  have h2 : lin3c.heightFuncList = .ok [1, 1, 0] := by decide +kernel
+  exact ⟨lin3_good, lin3c_good, lin3_same_group, h1, h2⟩
+
+/-- hypothesis of `height_is_entropy_value`, `height_entry_is_entropy`, `height_is_rank_minus_size`: the list exists -/
+example : lin3.heightFuncList = .ok [1, 1, 0] := by decide +kernel
+
+/-- hypothesis of `rref_total` / `height_of_independent`: the generators of `lin3` are linearly independent -/
+example : LinearIndependent (ZMod 2) (fun i : Fin lin3.n => (lin3.row i).vec lin3.n) :=
+  (height_returns_iff_independent lin3).1 ⟨[1, 1, 0], by decide +kernel⟩
+
+/-- hypothesis of `graph_height_is_cut_rank`: the path graph 0–1–2–3 (heights 1, 1, 1, 0: every cut crosses one edge) -/
+def path4 (i j : Nat) : Bool := i + 1 == j || j + 1 == i
+example : (graphSTab 4 path4).heightFuncList = .ok [1, 1, 1, 0] := by decide +kernel
+
+/-- hypotheses of `rref_echelon` / `rref_keeps_group`: `rref` returns on `lin3` -/
+example : (match lin3.rref with | .ok _ => true | .error _ => false) = true := by decide +kernel
+
+/-- hypotheses of `echelon_right_support`: the standard gauge of the 2-qubit cluster state `XZ, ZX` is an echelon tableau
+    (leading sites 0, 0 with different Paulis there), and the product of both generators `YY` … is not trivial on site 0 -/
+def cl2 : STab :=
+  STab.ofRows 2 #[PRow.ofArrays #[true,false] #[false,true] false false, PRow.ofArrays #[false,true] #[true,false] false false]
+
+/-- hypothesis of `solver_allocates_max_entropy` (and of the two solver theorems above): the solver returns on the 2-qubit cluster
+    state, with one emitter (= the entropy of its only non-trivial cut) -/
+example : (match Solver.solve cl2 with | .ok s => s.ne == 1 | .error _ => false) = true := by decide +kernel
+
+example : Echelon cl2 (fun _ => 0) := by
+  constructor
+  · intro i hi
+    match i, hi with
+    | 0, _ => exact ⟨by decide, fun j hj => by omega, by decide⟩
+    | 1, _ => exact ⟨by decide, fun j hj => by omega, by decide⟩
+    | m + 2, h => exact absurd h (by show ¬ (m + 2 < 2); omega)
+  · intro i k hik hk
+    match i, k, hik, hk with
+    | 0, 1, _, _ => exact ⟨Nat.le_refl _, fun _ => ⟨rfl, by decide⟩⟩
+    | 0, 0, h, _ => omega
+    | 1, 1, h, _ => omega
+    | 1, 0, h, _ => omega
+    | i + 2, k, h1, h2 => exact absurd h2 (by show ¬ (k < 2); omega)
+    | i, k + 2, h1, h2 => exact absurd h2 (by show ¬ (k + 2 < 2); omega)
 
 end Graphiq.C03
